@@ -38,7 +38,14 @@ Per operator of the catalogue:
 * unknown-attribute .... `unknown_attribute_rejected`
 * unknown-transform .... `unknown_transform_rejected` (first comparer entry), `unknown_transform_later_rejected` (any
                          later entry, after any list of well-formed entries)
-* unknown-cond-op ...... `unknown_condition_operator_rejected`
+* unknown-cond-op ...... `unknown_condition_operator_rejected` (an unrelated word), `condition_operator_not_a_spelling_rejected` (ANY operator
+                         text the scanner of `CONDITIONAL_OPERATION` does not read: one of `equals`, `not equals`, `in`, `not in`,
+                         each ONE terminal with exactly one blank inside), `near_miss_condition_operator_rejected` (`notin`,
+                         `notequals`, `not  in`, `not<TAB>in`, `Equals`, `IN`, `Not in`, `equal`, `no in`, `notnot in` … followed by
+                         anything)
+* near-miss-spacing / respace / near-miss-word (operators built from the legal spellings; most of their results are well-formed —
+                         token spacing is trivia — so the model arbitrates in the correspondence run): the condition operators above;
+                         for the other words none
 * missing-operand ...... `missing_operand_alias_rejected`, `missing_operand_member_rejected` (`name = `),
                          `missing_operand_constant_rejected` (`NAME = `: enum values and constants),
                          `missing_operand_enum_base_rejected` (`enum Name : `)
@@ -527,6 +534,39 @@ theorem wrong_arity_fixed_rejected :
     LineRejected "@alignment()".toList ∧ LineRejected "@alignment(8, pad_last, 4)".toList ∧
     LineRejected "@sizeref()".toList ∧ LineRejected "@sizeref(ab, 1, 2)".toList ∧ LineRejected "@size()".toList :=
   wrong_arity_fixed
+
+/-! ### near misses of the condition operators -/
+
+/-- Operator `unknown-cond-op` in general: `name = T if VALUE OP…` is rejected in every context for EVERY operator text
+    that `CONDITIONAL_OPERATION` does not read — the terminal is `not equals | equals | not in | in`, each alternative one
+    token with exactly one blank inside, so `not` and `in` are never two tokens with optional white space between them. -/
+theorem condition_operator_not_a_spelling_rejected (name : String) (hn : IsMemberName name) (t : FieldType) (ht : WFType t)
+    (opText : Chars) (hop : conditionalOperation opText = none) :
+    (∀ n : Nat, LineRejected (name.toList ++ ' ' :: '=' :: ' ' ::
+      (t.render.toList ++ ' ' :: 'i' :: 'f' :: ' ' :: ((toString n).toList ++ ' ' :: opText)))) ∧
+    (∀ c : String, IsConstantName c → LineRejected (name.toList ++ ' ' :: '=' :: ' ' ::
+      (t.render.toList ++ ' ' :: 'i' :: 'f' :: ' ' :: (c.toList ++ ' ' :: opText)))) :=
+  ⟨fun n => condition_operator_text_rejected name hn t ht _ (.int n) (conditionValue_num n) opText hop,
+   fun c hc => condition_operator_text_rejected name hn t ht _ (.str c) (conditionValue_const c hc) opText hop⟩
+
+/-- Operators `near-miss-spacing` / `near-miss-word` on a condition operator: the negated operators with their blank removed,
+    doubled or turned into a tab, the operators in another case, truncated or doubled, followed by anything, are not operators. -/
+theorem near_miss_condition_operator_rejected (rest : Chars) :
+    conditionalOperation ("notin".toList ++ rest) = none ∧ conditionalOperation ("notequals".toList ++ rest) = none ∧
+    conditionalOperation ("not  in".toList ++ rest) = none ∧ conditionalOperation ("not  equals".toList ++ rest) = none ∧
+    conditionalOperation ("not\tin".toList ++ rest) = none ∧ conditionalOperation ("not\tequals".toList ++ rest) = none ∧
+    conditionalOperation ("Equals".toList ++ rest) = none ∧ conditionalOperation ("EQUALS".toList ++ rest) = none ∧
+    conditionalOperation ("In".toList ++ rest) = none ∧ conditionalOperation ("IN".toList ++ rest) = none ∧
+    conditionalOperation ("Not in".toList ++ rest) = none ∧ conditionalOperation ("NOT IN".toList ++ rest) = none ∧
+    conditionalOperation ("equal ".toList ++ rest) = none ∧ conditionalOperation ("no in".toList ++ rest) = none ∧
+    conditionalOperation ("notnot in".toList ++ rest) = none :=
+  conditionalOperation_near_misses rest
+
+/-- the texts of the eighth-round seed, on the model -/
+example : (parseString "struct Foo\n\tkind = uint8\n\tbody = uint8 if 3 notin kind\n").toOption.isSome = false ∧
+    (parseString "struct Foo\n\tkind = uint8\n\tbody = uint8 if 3 not  in kind\n").toOption.isSome = false ∧
+    (parseString "struct Foo\n\tkind = uint8\n\tbody = uint8 if 3 not\tequals kind\n").toOption.isSome = false ∧
+    (parseString "struct Foo\n\tkind = uint8\n\tbody = uint8 if 3 not in kind\n").toOption.isSome = true := by decide
 
 /-! ### a line end lost in front of a comment line -/
 
